@@ -99,9 +99,15 @@ impl CacheAlignedAtomicUsize {
         self.0.fetch_add(value, ordering)
     }
 
+    /// Saturating subtraction: a gauge must never wrap below zero (entries that this
+    /// collector never saw being added can still be evicted or expired).
     #[inline]
     fn fetch_sub(&self, value: usize, ordering: Ordering) -> usize {
-        self.0.fetch_sub(value, ordering)
+        self.0
+            .fetch_update(ordering, Ordering::Relaxed, |v| {
+                Some(v.saturating_sub(value))
+            })
+            .unwrap_or(0)
     }
 
     #[inline]
